@@ -401,7 +401,20 @@ var checkLoess = ev.Register("loess", func(c *LoessCase) ev.Outcome {
 	for i, j := range c.Perm {
 		px[i], py[i] = c.Xs[j], c.Ys[j]
 	}
-	ax, ay := append([]float64(nil), px...), append([]float64(nil), py...)
+	// the inputs are handed over with spare capacity (a sub-slice of a larger buffer, as in
+	// xs, ys := buf[:n], buf[n:2n]): an "in place" copy that lands in the caller's memory shows
+	// up as a change of ys or of the sentinel-filled spare region
+	buf := make([]float64, 4*n+8)
+	for i := range buf {
+		buf[i] = -9.75e88
+	}
+	ax, ay := buf[:n:2*n], buf[2*n:3*n]
+	if n%2 == 0 {
+		ax, ay = buf[:n], buf[n:2*n] // flat layout: ys directly behind xs, inside xs' capacity
+	}
+	copy(ax, px)
+	copy(ay, py)
+	snapshot := append([]float64(nil), buf...)
 	f := fit.LOESS(ax, ay, c.Degree, c.Span)
 	// sorted input
 	idx := make([]int, n)
@@ -520,6 +533,9 @@ var checkLoess = ev.Register("loess", func(c *LoessCase) ev.Outcome {
 	}
 	if !bitsEq(ax, px) || !bitsEq(ay, py) {
 		return ev.Fail("LOESS modified its inputs")
+	}
+	if !bitsEq(buf, snapshot) {
+		return ev.Fail("LOESS wrote into the spare capacity of its input slices")
 	}
 	cl := []string{fmt.Sprintf("loess-degree=%d", c.Degree)}
 	for _, k := range []string{"window-tie-skipped", "discarded-ill-conditioned", "locality-checked", "inside-point-matters"} {
